@@ -163,6 +163,9 @@ func init() {
 			if in.N(4) > 0 {
 				c.SetExpire(time.Unix(int64(in.N(4)), 0))
 			}
+			if len(in) > 8 { // an explicit expiry, also at or before the epoch (the usual way to delete a cookie)
+				c.SetExpire(time.Unix(int64(in.N(8)), 0))
+			}
 			if in.N(5) != 0 {
 				c.SetMaxAge(in.N(5))
 			}
@@ -182,17 +185,34 @@ func init() {
 				return fmt.Sprintf("key=%q value=%q domain=%q path=%q expire=%d maxage=%d httponly=%v secure=%v partitioned=%v samesite=%d",
 					x.Key(), x.Value(), x.Domain(), x.Path(), x.Expire().Unix(), x.MaxAge(), x.HTTPOnly(), x.Secure(), x.Partitioned(), x.SameSite())
 			}
+			// AppendBytes writes key, value, domain and path as they are: a text with ';', with a space at either end
+			// or wrapped in double quotes (and a key with '=') is not what the reader takes it for.  Exactly the
+			// hypothesis wf_cookie of C17_cookie_roundtrip; such inputs get their own class (known finding), so
+			// that a loss on a well-formed cookie is told apart
+			quoted := ""
+			unclean := func(v []byte, key bool) bool {
+				if len(v) == 0 {
+					return false
+				}
+				if bytes.IndexByte(v, ';') >= 0 || v[0] == ' ' || v[len(v)-1] == ' ' || (key && bytes.IndexByte(v, '=') >= 0) {
+					return true
+				}
+				return len(v) >= 2 && v[0] == '"' && v[len(v)-1] == '"'
+			}
+			if unclean(in.B(0), true) || unclean(in.B(1), false) || unclean(in.B(2), false) || unclean(in.B(3), false) {
+				quoted = "unescaped-cookie-text:"
+			}
 			if a, b := show(c), show(d); a != b {
-				bad("parsed-cookie-differs-from-the-one-formatted", b, a+"  via "+s1)
+				bad(quoted+"parsed-cookie-differs-from-the-one-formatted", b, a+"  via "+s1)
 			}
 			if s2 := d.String(); s2 != s1 {
-				bad("formatting-the-parsed-cookie-is-not-a-fixed-point", s2, s1)
+				bad(quoted+"formatting-the-parsed-cookie-is-not-a-fixed-point", s2, s1)
 			}
 			return fs
 		},
 		Gen: func(t *T) {
 			keys := []string{"a", "session", "k-1", "A_b", "x.y"}
-			vals := []string{"", "v", "abc123", "a=b", "a b", "\"quoted\"", "%41", "x,y", "é"}
+			vals := []string{"", "v", "abc123", "a=b", "a b", "\"quoted\"", "%41", "x,y", "é", "a;b", " lead", "trail ", "\"", "a\"b\""}
 			doms := []string{"", "example.com", ".example.com", "sub.example.com"}
 			paths := []string{"", "/", "/a/b", "/a b", "/x?y"}
 			for i := 0; i < t.Scale(3000, 60000); i++ {
@@ -206,6 +226,11 @@ func init() {
 				}
 				t.Do(In{S(keys[t.R.Intn(len(keys))]), S(vals[t.R.Intn(len(vals))]), S(doms[t.R.Intn(len(doms))]), S(paths[t.R.Intn(len(paths))]),
 					Nn(exp), Nn(ma), Nn(t.R.Intn(8)), Nn(t.R.Intn(5))}, true)
+			}
+			for _, e := range []int{0, 1, -1, -86400, -2208988800, 253402300799} { // epoch, around it, 1900, year 9999
+				for fl := 0; fl < 8; fl += 3 {
+					t.Do(In{S("sid"), S("v"), S(doms[fl%len(doms)]), S(paths[fl%len(paths)]), Nn(0), Nn(0), Nn(fl), Nn(fl % 5), Nn(e)}, true)
+				}
 			}
 		}})
 }
